@@ -22,6 +22,7 @@ var persistentTypes = map[string][]string{
 	// and shows uncommitted state / survives an abort (C02)
 	"statedb.tableEntry":          {"C01", "C02"},
 	"statedb.tableInitialization": {"C01", "C02", "C19"},
+	"statedb.initToken":           {"C01", "C02", "C19"},
 	"statedb.partIndex":           {"C01", "C02"},
 	"statedb.partIndexTxn":        {"C01", "C02"}, // embedded in partIndex; field tx is writer scratch (E1)
 	"statedb.lpmIndex":            {"C01", "C02"},
